@@ -105,17 +105,8 @@ theorem holder_changes_only_by_handshake (c : Cfg) (f : Flavor) (s s' : State) (
     (op : Op) (h : apply c f s auth op = .ok s') (hne : s'.holder ≠ s.holder) :
     (op = .accept ∧ ∃ p, Temp.get? s.pending s.now = some p ∧ p ∈ auth ∧ s'.holder = some p) ∨
     (op = .renounce ∧ s'.holder = none ∧ Temp.get? s.pending s.now = none ∧
-      ∃ hd, s.holder = some hd ∧ hd ∈ auth) := by
-  cases op with
-  | offer new lu => obtain ⟨hd, -, -, h3, -⟩ := offer_ok h; exact absurd h3 hne
-  | accept =>
-    obtain ⟨p, h1, h2, h3, -⟩ := accept_ok h
-    exact Or.inl ⟨rfl, p, h1, h2, h3⟩
-  | renounce =>
-    obtain ⟨hd, h1, h2, h3, h4, -⟩ := renounce_ok h
-    exact Or.inr ⟨rfl, h4, h3, hd, h1, h2⟩
-  | guarded => obtain ⟨he, -⟩ := guarded_ok h; subst he; exact absurd rfl hne
-  | advance n => simp only [apply] at h; injection h with h; subst h; exact absurd rfl hne
+      ∃ hd, s.holder = some hd ∧ hd ∈ auth) :=
+  holder_change h hne
 
 /-- **C07**: until acceptance the current holder keeps full control. Over any history without
 an accepted accept / renounce the holder is unchanged, a holder-only function passes exactly
@@ -191,29 +182,7 @@ theorem renounced_is_final (c : Cfg) (f : Flavor) (h0 : Option Nat) (start : Nat
     (runG c f (initG h0 start) (ops ++ rest)).s.holder = none := by
   have hi := reachable_inv c f h0 start ops
   simp only [runG, List.foldl_append]
-  suffices ∀ x : GS, Inv c x → x.s.holder = none → (runG c f x rest).s.holder = none from
-    this _ hi hn
-  intro x
-  induction rest generalizing x with
-  | nil => intro _ h; exact h
-  | cons a as ih =>
-    intro hi hn
-    simp only [runG, List.foldl_cons]
-    refine ih _ (stepG_inv c f hi a) ?_
-    obtain ⟨auth, op⟩ := a
-    unfold stepG
-    cases hx : apply c f x.s auth op with
-    | error e => exact hn
-    | ok s' =>
-      simp only
-      apply Classical.byContradiction
-      intro hne
-      rcases holder_changes_only_by_handshake c f x.s s' auth op hx (by rw [hn]; exact hne) with
-        ⟨-, p, hg, -, -⟩ | ⟨-, -, -, hd, h1, -⟩
-      · obtain ⟨o, ho, -, hl⟩ := inv_get?_some hi hg
-        obtain ⟨-, -, -, ⟨hd, w4, -⟩, w6⟩ := hi.wf o ho
-        rw [w6 hl, w4] at hn; cases hn
-      · rw [hn] at h1; cases h1
+  exact holder_none_final c f rest _ hi hn
 
 /-- **C07, offers**: an accepted offer is authorized by the current holder, its
 `live_until_ledger` lies between the current ledger and the maximum lifetime, it leaves the
